@@ -33,8 +33,12 @@ CLAIMS = {
               "canonical header keys (net/http), what gorilla adds to a websocket handshake.", "DESIGN.md section 4 C09"),
  "C15": claim("Proof for all sizes and segmentations: bytes returned by Read followed by the bytes kept are exactly the buffer (or the one non-empty decoded text frame) the call started with - nothing lost, duplicated or reordered; frames are decoded only when nothing is buffered and only text frames; Write sends exactly one text frame with the hex of exactly its argument and touches none of Read's state (disjoint frames).",
               "gorilla framing, hex codec inverse pair, io.Copy, TCP, isolation between connections.", "DESIGN.md section 4 C15"),
- "C18": claim("Full functional proof of longest-prefix selection for all backend sets, prefix lists and paths (nested loop invariants with existential witness; ties unranked as in the property).",
-              "datastore query semantics, the liveness window and user/shared fallback in LookupBackend (not yet under contract).", "DESIGN.md section 4 C18"),
+ "C17": claim("Proof for all identities, ids and records (every handler verified for an arbitrary store state): an agent endpoint reaches the store only after checkBackendID validated the caller's OAuth identity against the backend named in the request, and then only under that validated id; a rejected caller gets exactly one 401 write and no store access; the admin API calls the backend CRUD operations only after isAdminRequest returned true (403 otherwise), isAdminRequest is true iff App Engine admin or OAuth admin; the end-user handler routes for the signed-in user's e-mail (401 when anonymous); agent paths other than the three endpoints get 404.",
+              "App Engine's user / datastore / memcache services (trusted specs), the store implementations behind types.Store other than the lookup functions (effects assumed confined to the datastore), the cron path's admin restriction (app yaml, outside Go).", "DESIGN.md section 4 C17"),
+ "C19": claim("Proof of the split arithmetic for all sizes (part i is exactly the i-th 1,000,000-byte window, keys <name>.part<i> in order, inline part exactly the first 1,000,000 bytes, all slice bounds safe, parts fetched in listed order) and of the id correlation on every hop (request stored / polled / answered / read under the same backend and request id, response recorded and request marked completed only for an existing request of the validated backend, the served bytes are the stored ones), plus channel-capacity safety of the two concurrent store writes.",
+              "datastore / memcache behaviour (put-then-get, GetMulti order), the byte-level round trip read(newBlob(b)) == b as one lemma (the two halves are proved separately against named windows), concurrency between client and agent calls.", "DESIGN.md section 4 C19"),
+ "C18": claim("Full functional proof of longest-prefix selection for all backend sets, prefix lists and paths (nested loop invariants with existential witness; ties unranked as in the property); LookupBackend asks for the user's own backends first, falls back to shared ones only when the user has no match, requires the matched backend's tracker to be younger than 5 minutes and never falls back from a dead match; the handler answers 404 on lookup failure.",
+              "datastore query semantics and entity well-formedness (assumed: non-nil entities with non-empty ids), the clock.", "DESIGN.md section 4 C18"),
  "C20": claim("Proof over all health-check histories (ghost consecutive-failure counter): the agent exits exactly when the count reaches max(1, threshold) and a success resets it; start-up returns only after a passing check; a check passes iff the probe succeeded with status 200; a pending-list call happens only after the polling context was seen live, and workers do not receive that context.",
               "signal timing relative to request phases, whether in-flight requests finish within the grace period, real time, process exit status (schedules / OS).", "DESIGN.md section 4 C20"),
 }
